@@ -1370,7 +1370,7 @@ class DecBase(Base):
 @register
 class C12(DecBase):
     id = 'C12'
-    ops = ['dec', 'stream']
+    ops = ['dec', 'stream', 'willdec']
     rule = ('everything a front-end accepts from: valid packets (multi-byte share names, boundary sizes), legal non-canonical '
             'spellings, corrupted frames, fault-catalogue frames; the harness walks every field of every returned packet '
             '(std::str::from_utf8 on each String, the library\'s own is_invalid predicates, every shared-subscription accessor '
@@ -1460,6 +1460,16 @@ class C12(DecBase):
                 self.exact.add(c)
                 cs.append(c)
                 hist(dist, 'filter-shapes')
+        # the per-part decoder of a will called directly (it is public): what it returns satisfies the will's invariants too
+        for pat in bad + [b'ok', b'', 'h\u00e9'.encode()]:
+            for pfi in (None, 0, 1):
+                for topic in (b't', b'a/+', 'd\u00e9/x'.encode()):
+                    wp = ({} if pfi is None else {1: pfi}, [])
+                    ph = b'QZJXKWVY'[:max(1, len(pat))]
+                    b0 = pk.encode('v5', ('connect', 5, 1, 10, ({}, []), b'c', (1, 0, wp, topic, ph), None, None))
+                    will = b0[frame_info(b0)[0] + 14:]
+                    cs.append('willdec ' + pk.hx(will.replace(bytes([0, len(ph)]) + ph, bytes([0, len(pat)]) + pat)))
+                    hist(dist, 'will-direct')
         # the async decoder validates what it returns also when a field arrives in several reads
         chunked_async_cases(self, cs, dist, single, rng, 600 if tier == 'quick' else 6000)
         chunked_async_cases(self, cs, dist, [(c.split()[1], bytes.fromhex(c.split()[2][1:])) for c in cs if c.startswith('dec ')],
@@ -1474,6 +1484,10 @@ class C12(DecBase):
         f = fields(line)
         if case.startswith('stream '):
             return judge_chunked_async(self, case, line, ctx)
+        if case.startswith('willdec '):
+            if f.get('res') == 'ok' and f.get('inv') != 'ok':
+                return 'the will returned by LastWill::decode_async violates a type invariant: %s' % f.get('inv')
+            return None
         nm = self.names.get(case)
         if nm is not None and not C18.name_ok(nm):
             for fe in ('block', 'async', 'poll'):
@@ -1497,12 +1511,16 @@ class C12(DecBase):
         if case.startswith('stream '):
             got = chunked_first(line)
             return 'first=' + (got if self.chunk_ref.get(case) in self.exact else res_class(got))
+        if case.startswith('willdec '):
+            return 'res=%s;inv=%s' % (f.get('res', ''), f.get('inv', '').split(':')[0])
         return self.front_ends(case, f, ('block', 'async', 'poll')) + ';' + ';'.join(
             '%s=%s' % (k, f.get(k, '').split(':')[0]) for k in ('binv', 'ainv', 'pinv'))
 
     def nontrivial(self, case, line):
         if case.startswith('stream '):
             return True
+        if case.startswith('willdec '):
+            return 'res=ok' in line
         return '=ok ' in line
 
 
